@@ -314,3 +314,31 @@ package log
 //@   requires b != nil && b.exporter != nil
 //@   ensures ok && old(len(buf)) > 0 ==> fresh(buf) && len(buf) == old(len(buf))
 //@   ensures !ok ==> samearray(buf, old(buf)) && len(buf) == old(len(buf))
+
+// ======================================================================== C20 log SDK configuration resolvers
+// the building blocks of newBatchConfig: a value below 1 is cleared (unset, so that the environment or the default applies);
+// a set value is never overridden by the environment; the fallback applies exactly to unset values; clamping keeps Set
+//@ func clearLessThanOne$1(s setting[$N]) (r setting[$N])
+//@   prop C20
+//@   instances int; time.Duration
+//@   ensures s.Value < 1 ==> !r.Set && r.Value == 0
+//@   ensures s.Value >= 1 ==> r == s
+//@   modifies
+//@ func clampMax$1(s setting[$N]) (r setting[$N])
+//@   prop C20
+//@   instances int
+//@   ensures r.Set == s.Set && r.Value == ite(s.Value > n, n, s.Value)
+//@   modifies
+//@ func fallback$1(s setting[$N]) (r setting[$N])
+//@   prop C20
+//@   instances int; time.Duration
+//@   ensures !s.Set ==> r.Set && r.Value == val
+//@   ensures s.Set ==> r == s
+//@   modifies
+//@ func getenv$1(s setting[$N]) (r setting[$N])
+//@   prop C20
+//@   instances int; time.Duration
+//@   overflow assumed
+//@   unchecked frame error handler
+//@   ensures s.Set ==> r == s
+//@   ensures !s.Set && !r.Set ==> r == s
